@@ -414,24 +414,18 @@ mod worker {
             ready_uni_h3_streams: &mpsc::Sender<Result<StreamUniRemoteH3, DriverError>>,
             ready_uni_wt_streams: &mpsc::Sender<StreamUniRemoteWT>,
         ) -> Result<(), DriverError> {
-            trace!("H3 uni queue capacity: {}", ready_uni_h3_streams.capacity());
-            let h3_slot = ready_uni_h3_streams
-                .clone()
-                .reserve_owned()
-                .await
-                .expect("Receiver cannot be dropped");
-
-            let wt_slot = match ready_uni_wt_streams.clone().reserve_owned().await {
-                Ok(wt_slot) => wt_slot,
-                Err(mpsc::error::SendError(_)) => return Err(DriverError::NotConnected),
-            };
-
             let stream_quic = Stream::accept_uni(quic_connection)
                 .await
                 .ok_or(DriverError::NotConnected)?;
 
             let stream_id = stream_quic.id();
             debug!("New incoming uni stream ({})", stream_id);
+
+            // Queue slots are awaited by the stream's own task, and only once its type is known:
+            // a peer stalling a stream before completing its preamble must not hold any slot,
+            // otherwise it would prevent all other streams from being accepted.
+            let ready_uni_h3_streams = ready_uni_h3_streams.clone();
+            let ready_uni_wt_streams = ready_uni_wt_streams.clone();
 
             tokio::spawn(
                 async move {
@@ -443,7 +437,9 @@ mod worker {
                             return;
                         }
                         Err(ProtoReadError::H3(error_code)) => {
-                            h3_slot.send(Err(DriverError::Proto(error_code)));
+                            let _ = ready_uni_h3_streams
+                                .send(Err(DriverError::Proto(error_code)))
+                                .await;
                             return;
                         }
                         Err(ProtoReadError::IO(_)) => {
@@ -456,9 +452,9 @@ mod worker {
 
                     if matches!(stream_kind, StreamKind::WebTransport) {
                         let stream_wt = stream_h3.upgrade();
-                        wt_slot.send(stream_wt);
+                        let _ = ready_uni_wt_streams.send(stream_wt).await;
                     } else {
-                        h3_slot.send(Ok(stream_h3));
+                        let _ = ready_uni_h3_streams.send(Ok(stream_h3)).await;
                     }
                 }
                 .instrument(debug_span!("Stream", "id={}", stream_id)),
@@ -474,24 +470,18 @@ mod worker {
             >,
             ready_bi_wt_streams: &mpsc::Sender<StreamBiRemoteWT>,
         ) -> Result<(), DriverError> {
-            trace!("H3 bi queue capacity: {}", ready_bi_h3_streams.capacity());
-            let h3_slot = ready_bi_h3_streams
-                .clone()
-                .reserve_owned()
-                .await
-                .expect("Receiver cannot be dropped");
-
-            let wt_slot = match ready_bi_wt_streams.clone().reserve_owned().await {
-                Ok(wt_slot) => wt_slot,
-                Err(mpsc::error::SendError(_)) => return Err(DriverError::NotConnected),
-            };
-
             let stream_quic = Stream::accept_bi(quic_connection)
                 .await
                 .ok_or(DriverError::NotConnected)?;
 
             let stream_id = stream_quic.id();
             debug!("New incoming bi stream ({})", stream_id);
+
+            // Queue slots are awaited by the stream's own task, and only once its first frame is
+            // known: a peer stalling a stream before completing its preamble must not hold any
+            // slot, otherwise it would prevent all other streams from being accepted.
+            let ready_bi_h3_streams = ready_bi_h3_streams.clone();
+            let ready_bi_wt_streams = ready_bi_wt_streams.clone();
 
             tokio::spawn(
                 async move {
@@ -506,7 +496,9 @@ mod worker {
                                 }
                             }
                             Err(ProtoReadError::H3(error_code)) => {
-                                h3_slot.send(Err(DriverError::Proto(error_code)));
+                                let _ = ready_bi_h3_streams
+                                    .send(Err(DriverError::Proto(error_code)))
+                                    .await;
                                 return;
                             }
                             Err(ProtoReadError::IO(_)) => {
@@ -520,10 +512,10 @@ mod worker {
                     match frame.session_id() {
                         Some(session_id) => {
                             let stream_wt = stream_h3.upgrade(session_id);
-                            wt_slot.send(stream_wt);
+                            let _ = ready_bi_wt_streams.send(stream_wt).await;
                         }
                         None => {
-                            h3_slot.send(Ok((stream_h3, frame)));
+                            let _ = ready_bi_h3_streams.send(Ok((stream_h3, frame))).await;
                         }
                     }
                 }
